@@ -352,13 +352,101 @@ def targeted(game, rng: Rng, ctx) -> None:
             ctx.count(f"targeted:refused:{type(e).__name__}")
 
 
+def saturate(game, rng: Rng, ctx, inside_tick: bool) -> None:
+    """Drive EVERY observed leaf of EVERY observed node away from its default in one step: malicious network events on every capturing
+    interface (both directions; the counters are cumulative, so before the tick is fine), and — inside the tick, after `pre_timestep`
+    cleared the per-step counters — executions, accesses, creations, deletions, log-ins, interface traffic, link load."""
+    comps = observed_components(game)
+    for host in sorted(comps):
+        node = game.simulation.network.get_node_by_hostname(host)
+        if node is None or node.operating_state.value != 1:
+            continue
+        c = comps[host]
+        try:
+            if not inside_tick:
+                for nic in node.network_interface.values():
+                    if nic.nmne_settings.capture_nmne:
+                        for dr in ("inbound", "outbound"):
+                            d = nic.nmne.setdefault("direction", {}).setdefault(dr, {}).setdefault("keywords", {})
+                            d["*"] = d.get("*", 0) + rng.choice([1, 2, 6, 11])
+                        ctx.count("takeaway:saturate:nmne")
+                continue
+            for name in c["applications"]:
+                app = next((a for a in node.applications.values() if a.name == name), None)
+                if app is not None:
+                    app.num_executions += rng.choice([1, 6, 11])
+            for fo, fi in c["files"]:
+                if node.file_system.get_file(fo, fi) is None:
+                    node.file_system.create_file(file_name=fi, folder_name=fo)
+                for _ in range(rng.choice([1, 6, 11])):
+                    node.file_system.access_file(fo, fi)
+            for i in range(2):
+                nm = f"s{rng.below(100000)}.txt"
+                node.file_system.create_file(file_name=nm, folder_name="root")
+                if i:
+                    node.file_system.delete_file("root", nm)
+            if hasattr(node, "user_session_manager"):
+                node.user_session_manager.local_login("admin", "admin")
+                node.user_session_manager.remote_login("admin", "admin", f"10.9.{rng.below(200)}.{1 + rng.below(200)}")
+            for nic in node.network_interface.values():
+                sp = nic.speed
+                nic.traffic = {"icmp": {"inbound": sp * 0.3, "outbound": sp * 0.25}, "tcp": {80: {"inbound": sp * 0.5, "outbound": sp * 0.12},
+                               53: {"inbound": sp * 0.4, "outbound": sp * 0.7}, 5432: {"inbound": sp * 0.03, "outbound": sp * 0.07}},
+                               "udp": {53: {"inbound": sp * 0.8, "outbound": sp * 0.01}}}
+            ctx.count("takeaway:saturate:counters-inside-the-tick")
+        except Exception as e:  # noqa: BLE001 - a refused event is not an observation concern
+            ctx.count(f"takeaway:refused:{type(e).__name__}")
+    if inside_tick:
+        for link in game.simulation.network.links.values():
+            link.current_load = link.bandwidth * rng.choice([0.12, 0.5, 0.95])
+
+
+def take_away(game, rng: Rng, ctx, how: str) -> None:
+    """After `saturate`: take the observed components away — `power`: every observed node is switched off (its observation must read
+    the default at every tick of the countdown, while OFF and while booting); `remove`: observed files / folders are deleted, observed
+    software is uninstalled, interfaces disabled, ACL rules removed (each must read as its default / its own encoding)."""
+    comps = observed_components(game)
+    for host in sorted(comps):
+        node = game.simulation.network.get_node_by_hostname(host)
+        if node is None:
+            continue
+        c = comps[host]
+        try:
+            if how == "power":
+                node.power_off()
+                ctx.count("takeaway:power_off:" + type(node).__name__)
+            elif how == "power_on":
+                node.power_on()
+            else:
+                for fo, fi in c["files"]:
+                    if rng.chance(1, 2) and node.file_system.get_file(fo, fi) is not None:
+                        node.file_system.delete_file(fo, fi)
+                        ctx.count("takeaway:remove:file")
+                for fo in c["folders"]:
+                    if rng.chance(1, 3) and fo != "root" and node.file_system.get_folder(fo) is not None:
+                        node.file_system.delete_folder(fo)
+                        ctx.count("takeaway:remove:folder")
+                for name in list(c["applications"]):
+                    if rng.chance(1, 2) and name in node.software_manager.software:
+                        node.software_manager.uninstall(name)
+                        ctx.count("takeaway:remove:application")
+                for nic in node.network_interface.values():
+                    if rng.chance(1, 3):
+                        nic.disable()
+        except Exception as e:  # noqa: BLE001
+            ctx.count(f"takeaway:refused:{type(e).__name__}")
+
+
 def install_midstep(game, rng: Rng, ctx) -> None:
     """instrumentation on THIS game object only (a new game is built at every reset): after the agents' actions, inside the tick"""
     orig = game.apply_agent_actions
 
     def apply_then_events():
         orig()
-        if rng.chance(2, 3):
+        if getattr(game, "_verif_saturate", False):
+            game._verif_saturate = False
+            saturate(game, rng, ctx, inside_tick=True)
+        elif rng.chance(2, 3):
             targeted(game, rng, ctx)
     game.apply_agent_actions = apply_then_events
 
@@ -427,6 +515,8 @@ def run_recipe(ctx, recipe: dict, chaos: Optional[Callable] = None) -> dict:
         tracks: Dict[str, dict] = {}
         oracle_fail: List[dict] = []
         seen_visible: Dict[tuple, int] = {}
+        folder_ids: Dict[tuple, tuple] = {}   # (episode, host, folder name) -> (uuid, step last seen)
+        replaced: Dict[str, List[str]] = {}   # "episode:step" -> folders that are another object than one step before
         incoherent: List[dict] = []
         ever: Dict[str, set] = {}
         label = recipe["label"]
@@ -440,6 +530,7 @@ def run_recipe(ctx, recipe: dict, chaos: Optional[Callable] = None) -> dict:
         ctx.count("env:space-read:at-construction")
 
         flat_len: Dict[int, int] = {}
+        defaults0: Dict[str, list] = {}  # track -> [(path, object, canonical default_observation right after this episode's reset)]
 
         def snapshot(ep: int, step: int, env_obs, sp_ep, as_ep):
             game = env.game
@@ -451,7 +542,14 @@ def run_recipe(ctx, recipe: dict, chaos: Optional[Callable] = None) -> dict:
                 diverged = {"service": 0, "application": 0, "file": 0, "folder": 0}
                 for node in game.simulation.network.nodes.values():
                     for f in node.file_system.folders.values():
-                        key = (ep, node.config.hostname, f.name)
+                        nkey = (ep, node.config.hostname, f.name)
+                        was = folder_ids.get(nkey)
+                        if was is not None and was[0] != f.uuid and was[1] == step - 1:
+                            # another folder object under the same name, and no observation in between saw the name absent
+                            replaced.setdefault(f"{ep}:{step}", []).append(f"{node.config.hostname}/{f.name}")
+                            ctx.count("truth:folder-replaced-within-one-tick")
+                        folder_ids[nkey] = (f.uuid, step)
+                        key = (ep, node.config.hostname, f.name, f.uuid)  # the coherence condition is about ONE folder object
                         prev = seen_visible.get(key, 0)
                         cur_v = f.visible_health_status.value
                         if cur_v != prev and not f._scanned_this_step and node.operating_state.value == 1:
@@ -488,9 +586,31 @@ def run_recipe(ctx, recipe: dict, chaos: Optional[Callable] = None) -> dict:
                     sp = agent.observation_manager.space
                     nested_of[name] = sp
                     ok_nested = bool(sp.contains(cur))
+                # alias oracle: no observe() may write into a stored default observation (of this object or of a sibling)
+                for pth0, o0, d0 in defaults0.get(f"{ep}:{name}", ()):
+                    try:
+                        d1 = rig.canon(o0.default_observation)
+                    except Exception:  # noqa: BLE001
+                        continue
+                    if d1 != d0:
+                        ctx.count("env:alias-oracle:default_observation-changed")
+                        oracle_fail.append({"scenario": label, "agent": name, "episode": ep, "step": step, "alias": type(o0).__name__,
+                                            "bad": [f"default_observation of {type(o0).__name__} at {pth0} was changed by observe(): {rig.first_diff(d0, d1)}"]})
+                        defaults0[f"{ep}:{name}"] = []
+                        break
+                else:
+                    ctx.count("env:alias-oracle:defaults-unchanged")
                 tr["lines"].append(("spec " + " ".join(ttoks)) if want_truth else ("obs " + " ".join(toks)))
                 ccur = rig.canon(cur)
                 tr["impl"].append((ccur, ok_nested, fb))
+                if tr["flatten"] and full and ok_nested:
+                    # the ORDER of the flattened vector: every element against the model's gymFlatten (gymnasium's key order) of its own value
+                    try:
+                        vec = gymnasium.spaces.flatten(sp, cur)
+                        tr["lines"].append("gflat")
+                        tr["impl"].append(("gflat", "".join(str(int(b)) for b in vec), bool(fb)))
+                    except Exception:  # noqa: BLE001 - reported by the API checks below
+                        pass
                 if tr["default"] is not None:
                     for (pth, val), (_, dv) in zip(leaf_paths(ccur), leaf_paths(tr["default"])):
                         if val != dv:
@@ -576,6 +696,13 @@ def run_recipe(ctx, recipe: dict, chaos: Optional[Callable] = None) -> dict:
                     dflt = rig.canon(mgr.obs.default_observation)
                 except Exception:  # noqa: BLE001
                     dflt = None
+                try:
+                    walked = rig.walk(mgr.obs)
+                    # innermost objects first: a write into a child's default shows in every ancestor that embeds it
+                    defaults0[f"{ep}:{name}"] = [(p_, o_, rig.canon(o_.default_observation)) for p_, o_ in sorted(walked, key=lambda x: -x[0].count("/"))
+                                                 if hasattr(o_, "default_observation")]
+                except Exception:  # noqa: BLE001
+                    defaults0[f"{ep}:{name}"] = []
                 tracks[f"{ep}:{name}"] = {"lines": lines, "impl": impl, "first": len(lines), "mode": mode, "show_at": None, "default": dflt,
                                           "ever": set(), "flat": [], "flatten": bool(agent.flatten_obs), "leaves": len(leaf_paths(dflt)) if dflt is not None else 0}
             sp_ep, as_ep = snapshot(ep, 0, obs, None, None)
@@ -596,14 +723,29 @@ def run_recipe(ctx, recipe: dict, chaos: Optional[Callable] = None) -> dict:
             except Exception:  # noqa: BLE001
                 acl_actions = []
             burst = 0
+            script = None
+            if recipe.get("takeaway"):
+                t0 = 2 + rng.below(4)
+                script = {"sat": t0, "away": t0 + 1, "on": t0 + 1 + rng.choice([1, 2, 4, 6]), "how": rng.choice(["power", "power", "remove"])}
             for t in range(steps):
+                if script is not None:
+                    if t == script["sat"]:
+                        saturate(env.game, rng, ctx, inside_tick=False)
+                        env.game._verif_saturate = True
+                    elif t == script["away"]:
+                        take_away(env.game, rng, ctx, script["how"])
+                    elif t == script["on"] and script["how"] == "power":
+                        take_away(env.game, rng, ctx, "power_on")
+                    elif t == script["on"] + 8 and t + 4 < steps:  # once more in the same episode, the other way
+                        t0 = t + 1
+                        script = {"sat": t0, "away": t0 + 1, "on": t0 + 1 + rng.choice([1, 2, 4, 6]), "how": "remove" if script["how"] == "power" else "power"}
                 if t % 7 == 0:
                     burst = rng.below(n)
                 act = burst if rng.chance(1, 2) else rng.below(n)
                 if acl_actions and rng.chance(1, 4):
                     act = rng.choice(acl_actions)
                     ctx.count("env:acl-add-rule-actions-chosen")
-                if use_chaos is not None:
+                if use_chaos is not None and not (script is not None and script["sat"] <= t <= script["on"]):
                     use_chaos(env.game, rng)
                 obs, _r, _te, trunc, _info = env.step(act)
                 ctx.count("env:steps")
@@ -611,7 +753,7 @@ def run_recipe(ctx, recipe: dict, chaos: Optional[Callable] = None) -> dict:
                 if trunc:
                     break
         env.close()
-        return {"tracks": tracks, "oracle_fail": oracle_fail, "incoherent": incoherent, "recipe": recipe, "constant": constant}
+        return {"tracks": tracks, "oracle_fail": oracle_fail, "incoherent": incoherent, "recipe": recipe, "constant": constant, "replaced": replaced}
     finally:
         if override is not None:
             override.__exit__()
@@ -646,7 +788,9 @@ def check_env(ctx, rname: str, res: dict, model_by_track: Dict[str, List[str]], 
     recipe = res["recipe"]
     for f in res["oracle_fail"]:
         what = f["bad"][0] if f["bad"] else "?"
-        if f["agent"] == "<api>":
+        if f.get("alias"):
+            sig = {"kind": "default-observation-mutated", "class": f["alias"], "property_oracle": "observe() leaves every default_observation as constructed"}
+        elif f["agent"] == "<api>":
             import re
             sig = {"kind": "env-api", "what": re.sub(r"\d+", "N", what.split(" (")[0])[:110], "property_oracle": "observation_space.contains(obs)"}
         else:
@@ -676,6 +820,25 @@ def check_env(ctx, rname: str, res: dict, model_by_track: Dict[str, List[str]], 
         for idx in range(tr["first"], len(tr["impl"])):
             cell = tr["impl"][idx]
             if isinstance(cell, str):
+                continue
+            if cell[0] == "gflat":
+                ctx.count("env:flattened-vector-compared-element-by-element")
+                if model[idx] != cell[1]:
+                    if cell[2]:
+                        ctx.count("env:float-boundary-step (flattened vector excluded)")
+                        continue
+                    agree = False
+                    at = next((i for i, (a_, b_) in enumerate(zip(cell[1], model[idx])) if a_ != b_), min(len(cell[1]), len(model[idx])))
+                    detail = (f"{rname} {key}: flatten(space, obs) differs from the model's gymFlatten at position {at} "
+                              f"(lengths {len(cell[1])} / {len(model[idx])}, ones {cell[1].count('1')} / {model[idx].count('1')})")
+                    if len(cell[1]) != len(model[idx]) or cell[1].count("1") != model[idx].count("1"):
+                        ctx.violation({"kind": "model-vs-impl", "what": "flattened vector (length / number of ones)", "class": "env"}, detail,
+                                      {"recipe": recipe, "track": key, "position": at})
+                    else:
+                        # the same leaves in another ORDER: no clause of C02 / C09 fixes the order, so this is a broken tie (the model of
+                        # gymnasium's key order no longer describes how the classes build their spaces), not a violation of the property
+                        ctx.oblige(f"rig:flattened vector in the model's order:{rname}:{key}", "correspondence", False, detail)
+                    break
                 continue
             if cell[0] == "flatdim":
                 flat_dim = int(model[idx].split()[0])
